@@ -541,10 +541,20 @@ def main(argv):
         try:
             build_harness(ctx)
             ev = json.load(open(argv[2]))
+            if getattr_race(PROPS[prop]):
+                build_harness(ctx, race=True)
+                ctx.race_mode = True
+                ctx.sched_args = []
             ok, clauses = PROPS[prop].get("replay", default_replay)(ctx, ev)
             if ok:
                 log("replay accepted: property holds on this event")
                 return 0
+            if "history" not in ev:
+                # classify like a fresh rejection: listed findings print KNOWN-FINDING and exit 0
+                triage(ctx, [(ev, clauses, "Trace", "replay")], "Trace")
+                if not ctx.violations:
+                    return 0
+                return 1
             log("VIOLATION property=%s replay=%s clause=%s" % (prop, argv[2], ",".join(clauses)))
             return 1
         except ToolError as e:
@@ -575,6 +585,10 @@ def main(argv):
         return 2
     finally:
         ctx.cleanup()
+
+
+def getattr_race(p):
+    return p.get("race", False)
 
 
 def default_replay(ctx, ev):
